@@ -718,7 +718,9 @@ class Executor:
                     extra = rs.pc[n0:]
                     # assumptions made while evaluating the rest hold only under go_on: guard them
                     for x in extra:
-                        s1.assume(z3.Implies(go_on, x))
+                        # in contract expressions every fact produced by evaluation is an unconditional
+                        # well-formedness fact (valid references, definitions of fresh symbols)
+                        s1.assume(x if self.spec else z3.Implies(go_on, x))
                     z = z3.And(tv, rv.z) if is_and else z3.Or(tv, rv.z)
                     yield bool_val(z), s1
                 else:
@@ -927,8 +929,11 @@ class Executor:
                 (a, sa), (b, sb) = outs_t[0], outs_f[0]
                 m = self.merge_vals(tv, a, b, s)
                 if m is not None:
-                    s.pc = s.pc + [z3.Implies(tv, x) for x in sa.pc[len(s.pc) + 1:]] \
-                        + [z3.Implies(z3.Not(tv), x) for x in sb.pc[len(s.pc) + 1:]]
+                    if self.spec:
+                        s.pc = s.pc + sa.pc[len(s.pc) + 1:] + sb.pc[len(s.pc) + 1:]
+                    else:
+                        s.pc = s.pc + [z3.Implies(tv, x) for x in sa.pc[len(s.pc) + 1:]] \
+                            + [z3.Implies(z3.Not(tv), x) for x in sb.pc[len(s.pc) + 1:]]
                     yield m, s
                     continue
             yield from outs_t
@@ -1057,7 +1062,20 @@ class Executor:
                 k = self.coerce(idx, t.k, st)
                 if t.counter:
                     return Val(Int, z3.If(z3.Select(self.dom(st, base), k.z), z3.Select(self.dvals(st, base), k.z), 0))
-                self.fork_raise(st, z3.Not(z3.Select(self.dom(st, base), k.z)), "KeyError")
+                present = z3.Select(self.dom(st, base), k.z)
+                if getattr(t, "default", False):
+                    if self.spec:
+                        return self.valid_ref(st, Val(t.v, z3.Select(self.dvals(st, base), k.z)))
+                    # defaultdict: a missing key is inserted with a freshly built empty container
+                    if self.entails(st, present):
+                        return self.valid_ref(st, Val(t.v, z3.Select(self.dvals(st, base), k.z)))
+                    new = self.alloc(st, t.v)
+                    cur = z3.Select(self.dvals(st, base), k.z)
+                    val = z3.If(present, cur, new.z)
+                    self.set_dvals(st, base, z3.Store(self.dvals(st, base), k.z, val))
+                    self.add_key(st, base, k)
+                    return self.valid_ref(st, Val(t.v, val))
+                self.fork_raise(st, z3.Not(present), "KeyError")
                 return self.valid_ref(st, Val(t.v, z3.Select(self.dvals(st, base), k.z)))
             if isinstance(t, Obj):
                 c = self.reg.find_method(t.cls, "__getitem__")
